@@ -1,7 +1,7 @@
 #!/usr/bin/env python3
 """Runs every check (one process, -prop all) against each seeded change applied to a scratch
 worktree of /repo, and records in seeded/<name>/meta.json which checks fire.
-usage: seed_checks.py [name-substring]"""
+usage: seed_checks.py [name-substring] [-j N]"""
 import json, os, subprocess, sys, shutil, glob
 
 def sh(cmd, cwd=None):
@@ -11,52 +11,66 @@ def sh(cmd, cwd=None):
     p = subprocess.run(cmd, shell=True, cwd=cwd, env=env, capture_output=True, text=True)
     return p.returncode, p.stdout + p.stderr
 
-def main():
-    only = sys.argv[1] if len(sys.argv) > 1 else ""
-    rows = []
-    for d in sorted(glob.glob("/verif/seeded/*/")):
-        name = os.path.basename(d.rstrip("/"))
-        if only and only not in name:
-            continue
-        meta = json.load(open(d + "meta.json"))
-        wt = "/tmp/sc_" + name
+def one(d):
+    name = os.path.basename(d.rstrip("/"))
+    meta = json.load(open(d + "meta.json"))
+    wt = "/tmp/sc_" + name
+    sh("git -C /repo worktree remove --force " + wt)
+    shutil.rmtree(wt, ignore_errors=True)
+    rc, out = sh("git -C /repo worktree add --detach %s HEAD" % wt)
+    try:
+        rc, out = sh("git apply %spatch.diff" % d, cwd=wt)
+        if rc != 0:
+            rc, out = sh("git apply -3 %spatch.diff" % d, cwd=wt)
+        if rc != 0:
+            return (name, "PATCH DOES NOT APPLY", [])
+        tmpv = "/tmp/scv_" + name
+        shutil.rmtree(tmpv, ignore_errors=True)
+        os.makedirs(tmpv + "/evidence")
+        shutil.copy("/verif/known-findings.txt", tmpv)
+        rc, out = sh("/verif/bin/verifcheck -prop all -repo %s -verif %s" % (wt, tmpv))
+        fired = {}
+        for l in out.splitlines():
+            if l.startswith("FAIL") or l.startswith("UNDECIDED"):
+                parts = l.split()
+                rule = parts[1]
+                prop = rule.split(".")[0]
+                fired.setdefault(prop, []).append(l[:500])
+        shutil.rmtree(tmpv, ignore_errors=True)
+        own = meta["property"]
+        meta["detection"] = {
+            "checker_commit": sh("git -C /verif rev-parse --short HEAD")[1].strip(),
+            "own_property_check_fires": own in fired,
+            "properties_whose_check_fires": sorted(fired.keys()),
+            "failing_obligations": {k: v[:4] for k, v in fired.items()},
+            "how": "git worktree of /repo HEAD + git apply patch.diff; bin/verifcheck -prop all -repo <worktree>",
+        }
+        json.dump(meta, open(d + "meta.json", "w"), indent=1)
+        return (name, "DETECTED by " + ",".join(sorted(fired.keys())) if fired else "MISSED", fired.get(own, [])[:1], own in fired)
+    finally:
         sh("git -C /repo worktree remove --force " + wt)
-        rc, out = sh("git -C /repo worktree add --detach %s HEAD" % wt)
-        try:
-            rc, out = sh("git apply %spatch.diff" % d, cwd=wt)
-            if rc != 0:
-                rows.append((name, "PATCH DOES NOT APPLY", []))
-                continue
-            tmpv = "/tmp/scv_" + name
-            shutil.rmtree(tmpv, ignore_errors=True)
-            os.makedirs(tmpv + "/evidence")
-            shutil.copy("/verif/known-findings.txt", tmpv)
-            rc, out = sh("/verif/bin/verifcheck -prop all -repo %s -verif %s" % (wt, tmpv))
-            fired = {}
-            for l in out.splitlines():
-                if l.startswith("FAIL") or l.startswith("UNDECIDED"):
-                    parts = l.split()
-                    rule = parts[1]
-                    prop = rule.split(".")[0]
-                    fired.setdefault(prop, []).append(l[:500])
-            shutil.rmtree(tmpv, ignore_errors=True)
-            own = meta["property"]
-            meta["detection"] = {
-                "checker_commit": sh("git -C /verif rev-parse --short HEAD")[1].strip(),
-                "own_property_check_fires": own in fired,
-                "properties_whose_check_fires": sorted(fired.keys()),
-                "failing_obligations": {k: v[:4] for k, v in fired.items()},
-                "how": "git worktree of /repo HEAD + git apply patch.diff; bin/verifcheck -prop all -repo <worktree>",
-            }
-            json.dump(meta, open(d + "meta.json", "w"), indent=1)
-            rows.append((name, "DETECTED by " + ",".join(sorted(fired.keys())) if fired else "MISSED", fired.get(own, [])[:1]))
-        finally:
-            sh("git -C /repo worktree remove --force " + wt)
-            shutil.rmtree(wt, ignore_errors=True)
-    for name, verdict, ex in rows:
-        print("%-45s %s" % (name, verdict))
-        for e in ex:
-            print("      " + e[:260])
+        shutil.rmtree(wt, ignore_errors=True)
+
+def main():
+    from concurrent.futures import ThreadPoolExecutor
+    args = sys.argv[1:]
+    j = 4
+    if "-j" in args:
+        i = args.index("-j"); j = int(args[i+1]); del args[i:i+2]
+    only = args[0] if args else ""
+    dirs = [d for d in sorted(glob.glob("/verif/seeded/*/")) if only in os.path.basename(d.rstrip("/"))]
+    missed_own = 0
+    with ThreadPoolExecutor(max_workers=j) as ex:
+        for row in ex.map(one, dirs):
+            name, verdict, exm = row[0], row[1], row[2]
+            own = row[3] if len(row) > 3 else False
+            if not own:
+                missed_own += 1
+            print("%-50s %s%s" % (name, verdict, "" if own else "   [own property check silent]"))
+            for e in exm:
+                print("      " + e[:260])
+            sys.stdout.flush()
+    print("TOTAL seeds=%d own-property-check-silent=%d" % (len(dirs), missed_own))
 
 if __name__ == "__main__":
     main()
